@@ -401,9 +401,13 @@ class Implicit:
                 elif last in ("log2", "log", "sqrt") and name.startswith("math.") and n.args:
                     if not self._positive_arg(fn, n.args[0], n):
                         out.append(("ext:ValueError", n, norm(n)[:50]))
-                elif isinstance(n.func, ast.Attribute) and n.func.attr == "encode" and not (n.args and isinstance(n.args[0], ast.Constant) and n.args[0].value in ("ascii",) and False):
-                    # str.encode("utf8") fails on lone surrogates, which DSDL string escapes can produce
-                    if self.kinds.kind(fn, n.func.value, n) & {"str", "?"} or True:
+                elif isinstance(n.func, ast.Attribute) and n.func.attr == "encode":
+                    # str.encode("utf8") fails on lone surrogates, which DSDL string escapes can produce - unless an error
+                    # handler that never raises is named
+                    eh = next((k.value for k in n.keywords if k.arg == "errors"), n.args[1] if len(n.args) > 1 else None)
+                    if isinstance(eh, ast.Constant) and eh.value in ("replace", "ignore", "backslashreplace", "xmlcharrefreplace", "namereplace", "surrogatepass"):
+                        self._record(fn, n, "errors=%r never raises" % eh.value)
+                    else:
                         out.append(("ext:UnicodeEncodeError", n, norm(n)[:60]))
                 elif isinstance(n.func, ast.Name) and n.func.id in fn.params:
                     vals = self.kinds.impl_values(fn, n.func.id)
@@ -621,6 +625,24 @@ class Implicit:
                             return self._record(fn, n, "`%s` is bound once, to a %d-element display" % (nm, len(v0.elts)))
                     if binds:
                         break
+        # an instance field every store of which (anywhere in the class hierarchy) is None or a display that is long enough
+        d_f = dotted(n.value)
+        if d_f and d_f.startswith("self.") and d_f.count(".") == 1 and fn.cls is not None and isinstance(n.slice, ast.Constant) and isinstance(n.slice.value, int):
+            i = n.slice.value
+            stores_f: List[ast.AST] = []
+            for k in [fn.cls] + [c for c in self.repo.subclasses(fn.cls, strict=True)] + [c for c in self.repo.mro(fn.cls) if isinstance(c, ClassInfo)]:
+                for m in k.methods.values():
+                    for st in ast.walk(m.node):
+                        if isinstance(st, (ast.Assign, ast.AnnAssign)) and st.value is not None:
+                            for t in st.targets if isinstance(st, ast.Assign) else [st.target]:
+                                if dotted(t) == d_f:
+                                    stores_f.append(st.value)
+                        elif isinstance(st, ast.AugAssign) and dotted(st.target) == d_f:
+                            stores_f.append(st)
+            displays = [v for v in stores_f if isinstance(v, (ast.Tuple, ast.List)) and not any(isinstance(e, ast.Starred) for e in v.elts)]
+            nones = [v for v in stores_f if isinstance(v, ast.Constant) and v.value is None]
+            if displays and len(displays) + len(nones) == len(stores_f) and all(0 <= i < len(v.elts) or -len(v.elts) <= i < 0 for v in displays):
+                return self._record(fn, n, "`%s` only ever holds None or a display of at least %d elements" % (d_f, min(len(v.elts) for v in displays)))
         # x.split(...)[0] / [-1]: str.split never returns an empty list (also through a trivial accessor on self)
         val: ast.AST = n.value
         if fn.cls is not None:
